@@ -284,6 +284,15 @@ def _tailify(stmts, make):
         if not any(isinstance(n, ast.Return) for n in ast.walk(st)):
             out.append(st)
             continue
+        if isinstance(st, ast.Try) and not st.finalbody and not stmts[i + 1:] and not st.orelse:
+            # the last statement of the helper: each part ends the helper, so each part is converted on its own
+            body = _tailify(st.body, make)
+            hs = [_tailify(h.body, make) for h in st.handlers]
+            if body is None or any(x is None for x in hs):
+                return None
+            new = ast.Try(body=body or [ast.Pass()], handlers=[ast.ExceptHandler(type=h.type, name=h.name, body=x or [ast.Pass()]) for h, x in zip(st.handlers, hs)],
+                          orelse=[], finalbody=[])
+            return out + [ast.copy_location(new, st)]
         if not isinstance(st, ast.If):
             return None
         rest = stmts[i + 1:]
